@@ -5,14 +5,18 @@ return, deferred close, inlined closures and helpers → minimised control-flow 
 `Model/PumpCFG.pumpGraph` (`new_graph_gen`), and the successor function `pumpNext` of the network model
 `Go/Unbound.lean` — which every theorem of Props/C08 is about — IS the interpretation of that graph, program point by
 control point (`pump_is_graph`, `step_wf`, `graph_step_sound`, `graph_step_complete`, `graph_init`).
-A rewrite that keeps the control flow compiles to the same graph; the linked queue (pipe/queue.go) keeps the
-syntactic tie (`*_text`: go/xlate family `gotext`, Model/GoText.lean).
+A rewrite that keeps the control flow compiles to the same graph.  The linked queue (pipe/queue.go) is translated
+statement by statement into the pointer-program monad of Model/QueueDSL.lean (go/xlate family `queue`) and proved equal
+to the arena functions of Model/Queue.lean (`enq_gen`, `deq_gen`, `head_gen`, `emit_gen`); only `newq` keeps the
+syntactic tie.
 -/
 import Golem.Props.C08
 import Golem.Gen.PipeText
 import Golem.Gen.PipeNewCFG
 import Golem.Model.GoText
 import Golem.Model.PumpCFG
+import Golem.Gen.PipeQueue
+import Golem.Model.QueueDSL
 namespace Golem.Props.C08
 open Golem.Model Golem.Go Golem.Go.Unbound Golem.Model.CFG
 
@@ -138,10 +142,59 @@ theorem wf_iff (c : Conf α) : WF c ↔ wfB c = true := by
       rw [this] at h2; cases h2
     · exact h2
 
+/-! ### pipe/queue.go: the pointer programs as regenerated (go/xlate family `queue`) are the arena functions of
+Model/Queue.lean, which `queue_refines_fifo` relates to the backlog list of the pump's model -/
+
+section Queue
+open Golem.Model.Queue Golem.Model.QDSL
+
+attribute [local simp] bind QM.bind pure QM.pure getHead getTail setHead setTail nextOf valueOf setNext setValue poolGet poolPut deref
+
+@[simp] theorem setNode_tail (q : Queue α) (i : Nat) (n : Node α) : (setNode q i n).tail = q.tail := rfl
+@[simp] theorem setNode_head (q : Queue α) (i : Nat) (n : Node α) : (setNode q i n).head = q.head := rfl
+@[simp] theorem setNode_size (q : Queue α) (i : Nat) (n : Node α) : (setNode q i n).size = q.size := rfl
+@[simp] theorem setNode_pool (q : Queue α) (i : Nat) (n : Node α) : (setNode q i n).pool = q.pool := rfl
+@[simp] theorem setNode_node_same (q : Queue α) (i : Nat) (n : Node α) : (setNode q i n).node i = n := by simp [setNode]
+
+@[simp] theorem setNode_setNode (q : Queue α) (i : Nat) (a b : Node α) : setNode (setNode q i a) i b = setNode q i b := by
+  simp only [setNode]
+  congr 1
+  funext j
+  by_cases hj : j = i <;> simp [hj]
+
+/-- `enq(&x, queue)` as regenerated never dereferences nil and leaves the arena `Model.Queue.enq` describes -/
+theorem enq_gen (c : Option Nat) (x : α) (q : Queue α) :
+    Gen.PipeQueue.enq c x q = some ((), Golem.Model.Queue.enq c x q) := by
+  simp only [Gen.PipeQueue.enq, Golem.Model.Queue.enq]
+  generalize hg : Golem.Model.Queue.get c q = r
+  obtain ⟨val, q1⟩ := r
+  cases ht : q1.tail <;> cases hh : q1.head <;> simp [hg, ht, hh]
+
+/-- `deq(queue)` as regenerated: the nil dereference on an empty queue, else the value pointer and the new arena -/
+theorem deq_gen (q : Queue α) : Gen.PipeQueue.deq q = Golem.Model.Queue.deq q := by
+  simp only [Gen.PipeQueue.deq, Golem.Model.Queue.deq]
+  cases h : q.head with
+  | none => simp [h]
+  | some v =>
+    by_cases ht : q.tail = some v
+    · simp [h, ht]
+    · have ht' : ¬ some v = q.tail := fun e => ht e.symm
+      simp [h, ht, ht']
+
+/-- `head(queue)`: the zero value on an empty queue, else the value the head node points to -/
+theorem head_gen (zero : α) (q : Queue α) :
+    Gen.PipeQueue.head zero q = (Golem.Model.Queue.head zero q).map fun a => (a, q) := by
+  simp only [Gen.PipeQueue.head, Golem.Model.Queue.head]
+  cases h : q.head <;> simp [h]
+
+/-- `emit(ch, queue)`: nil (the select arm is disabled) iff the queue is empty; the queue is not touched -/
+theorem emit_gen (q : Queue α) : Gen.PipeQueue.emit q = some (Golem.Model.Queue.emit q, q) := by
+  simp only [Gen.PipeQueue.emit, Golem.Model.Queue.emit]
+  cases h : q.head <;> simp [h]
+
+end Queue
+
+/-- `newq` (allocation of the empty queue and its `sync.Pool`): syntactic tie -/
 theorem newq_text : Gen.PipeText.newq_text = GoText.newq_text := rfl
-theorem enq_text : Gen.PipeText.enq_text = GoText.enq_text := rfl
-theorem deq_text : Gen.PipeText.deq_text = GoText.deq_text := rfl
-theorem head_text : Gen.PipeText.head_text = GoText.head_text := rfl
-theorem emit_text : Gen.PipeText.emit_text = GoText.emit_text := rfl
 
 end Golem.Props.C08
